@@ -13,11 +13,15 @@ operation list with inductive invariants, no bound on length or ids.
   `0 … next-1` with chains `liveC` or `deadC`; forward and backward adjacency tables list exactly the
   live edges, once; every index has distinct value keys, duplicate-free buckets and only entries
   backed by the property table; label-index entries are duplicate free.
-* hypotheses on histories, as decidable predicates evaluated along the history (`histOk P b ops`):
-  `propOk` (properties are written to live nodes only), `epropOk` (… live edges only), `edgeOk` (edges
-  join live nodes; the non-detaching `delete_node` is used on nodes without live edges). They buy
-  `NoGhost`, `PxExact`, `NoGhostE`, `NoDangling`; each is shown necessary by a `decide` witness — the
-  two known findings of C14 and the edge twin of the second.
+* since the repair of `set_node_property` / `set_edge_property` (nothing is written for an entity
+  that has no live version) three more invariants hold after every history: `NoGhost`, `NoGhostE` (no
+  property map stored for an id that is not a live node / edge) and `PxExact` (indexes complete), so
+  the property paths and the refinement are full theorems.
+* one hypothesis on histories is left, a decidable predicate evaluated along the history
+  (`histOk edgeOk b ops`): edges join live nodes; the non-detaching `delete_node` is used on nodes
+  without live edges. It buys `NoDangling`, and is shown necessary by a `decide` witness (known
+  finding `C14-dangling-edges-after-delete-node`). The two ghost-property findings are regression
+  theorems now.
 * `Graph`, `Graph.step`, `grun`, `abs` — the plain graph, the plain meaning of every operation, and
   the abstraction (what `get_node` / `get_edge` show).
 * theorems `c14p_*`: 1 adjacency, 2 edge table, 3 property paths, 4 refinement, 5 non-vacuity.
@@ -1877,7 +1881,7 @@ theorem run_append (b : Bool) (ops ops' : List Op) : run b (ops ++ ops') = ops'.
 /-- F: identifiers are never reused — a node or edge id that has been handed out and for which the
 point lookup answers `None` (i.e. a deleted entity) stays that way through every continuation of the
 history; by `c14_deleted_node_not_in_label_index`, `c14p_dead_edge_nowhere` and
-`c14p_index_entries_live_partial` it then stays off the other paths as well. -/
+`c14p_index_entries_live` it then stays off the other paths as well. -/
 theorem c14p_deleted_stays_deleted (b : Bool) (ops ops' : List Op) :
     (∀ i, i < (run b ops).nextNode → (run b ops).getNodeAt i (run b ops).epoch = none →
       (run b (ops ++ ops')).getNodeAt i (run b (ops ++ ops')).epoch = none) ∧
